@@ -57,6 +57,14 @@ def JL.isNil : JL → Bool
   | .nil => true
   | _ => false
 
+def JL.length : JL → Nat
+  | .nil => 0
+  | .cons _ t => t.length + 1
+
+/-- `getJsonUnmarshaler(opts...)`: any option ⇒ a NEW unmarshaller built from exactly these options (so the options
+of one call cannot reach another), none ⇒ the package-level default one (which carries no option). -/
+def freshUnmarshaler (nOpts : Nat) : Bool := nOpts != 0
+
 /-! ### types of the family -/
 
 inductive Prim where
